@@ -9,6 +9,7 @@ from BPTK_Py import Model, Agent, DataCollector
 LEN = int(os.environ.get("C14_LEN", "3"))
 FIRST = int(os.environ.get("C14_FIRST", "-1"))
 EXTRA = int(os.environ.get("C14_EXTRA", "-1"))
+FPAR = int(os.environ.get("C14_FPAR", "-1"))          # parity of the first operation's argument (-1: any); splits slow slices
 NOPS = 8
 MAXID = 4
 TYPES = ["A", "B"]
@@ -76,7 +77,11 @@ def apply_op(m, ref, op, arg, rnd):
             r[2] = "idle" if r[2] == "active" else "active"
     elif op == 4:
         before = m.next_agent_id
-        m.configure_agents([{"name": "A", "count": 1}, {"name": "B", "count": 1}])
+        only_a = (arg % 2 == 1)              # odd argument: the new configuration names ONE type only (two A, no B)
+        if only_a:
+            m.configure_agents([{"name": "A", "count": 2}])
+        else:
+            m.configure_agents([{"name": "A", "count": 1}, {"name": "B", "count": 1}])
         ref.live = []
         ids = [a.id for a in m.agents]
         for i in ids:
@@ -84,7 +89,7 @@ def apply_op(m, ref, op, arg, rnd):
                 return "configure_agents reused id %d" % i
             ref.issued.append(i)
         if len(ids) == 2:
-            ref.live = [[ids[0], "A", "active"], [ids[1], "B", "active"]]
+            ref.live = [[ids[0], "A", "active"], [ids[1], "A" if only_a else "B", "active"]]
         else:
             return "configure_agents created %d agents" % len(ids)
     elif op == 5:
@@ -187,6 +192,7 @@ def _history(ops: List[Tuple[int, int]], rnd: int) -> bool:
     pre: len(ops) == LEN
     pre: all(0 <= o[0] < NOPS and 0 <= o[1] <= MAXID for o in ops)
     pre: FIRST < 0 or ops[0][0] == FIRST
+    pre: FPAR < 0 or ops[0][1] % 2 == FPAR
     pre: 0 <= rnd <= 3
     post: _
     """
